@@ -9,8 +9,8 @@ AcordModel.tla: networks built by TLC from the constructions of the documented s
 coordinates (polar by direction or angle, intersection, resection by directions or angles, trilateration,
 two distances with a bearing, inserted traverse, in every order over 4-5 points, plus further observations); the model's closure says which points must be positioned; they are
 written without approximate coordinates, under names and document orders that hide the construction order.
-AcordHeights.tla: heights propagate along levelled differences, zenith angle + slope distance pairs and vectors
-in either direction; the closure is reachability whatever the kinds along the path; every spanning tree over
+AcordHeights.tla: heights propagate along levelled differences, zenith angles (with slope distance, with
+horizontal distance, or alone between known positions) and vectors in either direction; the closure is reachability whatever the kinds along the path; every spanning tree over
 4-5 points in every mixture of kinds and directions, heights omitted."""
 import sessions, acordnets
 LEVEL = "exploration"
@@ -50,11 +50,14 @@ def run(ctx):
     sta = acordnets.run(ctx, ca, algs=(None,) if q else (None, "gso", "svd", "cholesky"))
     stb = acordnets.run(ctx, cb, algs=(None, "gso") if q else (None, "gso", "svd", "cholesky"))
     # heights: every spanning tree of levelled differences, zenith angle + slope distance pairs and vectors, in both directions
-    KH = '{"dh", "zs", "vec"}'
+    KH = '{"dh", "zs", "zd", "za", "vec"}'
     if q:
-        rh, ch = acordnets.generate(ctx, "c06h", {"NP": 4, "MaxExtra": 1, "Kinds": KH, "Keep": 307, "Seed": ctx.seed}, module="AcordHeights")
+        rh, ch = acordnets.generate(ctx, "c06h", {"NP": 4, "MaxExtra": 0, "Kinds": KH, "Keep": 47, "Seed": ctx.seed}, module="AcordHeights")
+        rh2, ch2 = acordnets.generate(ctx, "c06i", {"NP": 4, "MaxExtra": 1, "Kinds": '{"dh", "zs", "vec"}', "Keep": 997, "Seed": ctx.seed}, module="AcordHeights")
     else:
-        rh, ch = acordnets.generate(ctx, "c06h", {"NP": 5, "MaxExtra": 1, "Kinds": KH, "Keep": 997, "Seed": ctx.seed}, module="AcordHeights")
+        rh, ch = acordnets.generate(ctx, "c06h", {"NP": 4, "MaxExtra": 1, "Kinds": KH, "Keep": 499, "Seed": ctx.seed}, module="AcordHeights", timeout=3000)
+        rh2, ch2 = acordnets.generate(ctx, "c06i", {"NP": 5, "MaxExtra": 0, "Kinds": '{"zs", "vec"}', "Keep": 1999, "Seed": ctx.seed}, module="AcordHeights", timeout=3000)
+    ch, rh.distinct = ch + ch2, rh.distinct + rh2.distinct
     sth = acordnets.run(ctx, ch, algs=(None,) if q else (None, "gso"), heights=True)
     ctx.note("AcordHeights: %d link histories (%d states), %d runs, %d heights derived" % (len(ch), rh.distinct, sth["runs"], sth["points_checked"]))
     ctx.note("AcordModel: %d construction histories over 5 points (%d states), %d over 4 points with further observations (%d states); %d runs, %d points positioned"
